@@ -60,6 +60,8 @@ type InstCfg struct {
 	PeriodicPruning bool
 	// Process, when set, is built by the caller (W2); W1 uses none.
 	MakeProcess func(inst *Instance) (process.Service, error)
+	// NoAccountPassphrases: the unlocker is configured without account passphrases (accounts are unlocked by hand).
+	NoAccountPassphrases bool
 }
 
 // Instance is one running incarnation of a Dirk signer stack: all real services, wired as
@@ -165,7 +167,11 @@ func NewInstance(s *Sched, name string, cfg InstCfg) (*Instance, error) {
 		}
 	}
 	inst.FetcherW = &FetcherWrap{Service: fetcherSvc, s: s, inst: inst, plan: cfg.Plan, pop: cfg.Pop, wrap: map[e2wtypes.Account]e2wtypes.Account{}}
-	unlockerSvc, err := localunlocker.New(ctx, localunlocker.WithWalletPassphrases([]string{"pass"}), localunlocker.WithAccountPassphrases([]string{"pass"}))
+	acctPass := []string{"pass"}
+	if cfg.NoAccountPassphrases {
+		acctPass = []string{}
+	}
+	unlockerSvc, err := localunlocker.New(ctx, localunlocker.WithWalletPassphrases([]string{"pass"}), localunlocker.WithAccountPassphrases(acctPass))
 	if err != nil {
 		return fail(err)
 	}
